@@ -4,6 +4,7 @@ package main
 
 import (
 	"fmt"
+	"os"
 	"sort"
 	"strings"
 	"sync"
@@ -93,6 +94,10 @@ type Run struct {
 
 	queued int
 	isInit bool
+	noMerge bool
+	merges  int
+	linFacts int
+	linRows  []*Term
 }
 
 type intModeT struct{}
@@ -140,12 +145,185 @@ func (r *Run) addPC(c *Term) {
 		}
 		return
 	}
+	r.ts.noteDomain(c)
+	if c.op == OpEq && c.args[0].w > 0 {
+		if ok, contra := r.ts.noteEquality(c.args[0], c.args[1]); ok {
+			if contra {
+				panic(&pathEnd{kind: "infeasible", msg: "GF(2) system inconsistent"})
+			}
+			// kept out of the solver session: see query()
+			r.linFacts++
+			r.linRows = r.ts.rowTerms()
+			return
+		}
+	}
 	r.pc = append(r.pc, c)
+}
+
+// query decides satisfiability of PC ∧ c (c may be nil) and optionally returns a model.
+// Without GF(2) facts this is one check-sat. With them (XOR systems stall bit-blasting solvers) it is
+// decided in up to three solver steps: (A) PC without the linear rows — unsat there is unsat overall;
+// (B) the free bits of A's model are kept, the pivot bits are computed from the solved rows and all
+// of them are asserted together with the rows — sat there is a genuine model of the full PC;
+// (C) the full query as a last resort.
+func (r *Run) query(c *Term, wantModel bool, extra []*Term) (string, map[string]uint64) {
+	r.flush()
+	if c != nil {
+		if c.IsConst() && c.k == 0 {
+			return "unsat", nil
+		}
+		r.emit(c)
+	}
+	for _, e := range extra {
+		r.emit(e)
+	}
+	modelRefs := func() []string {
+		var refs []string
+		for _, v := range r.ts.vars {
+			if r.declared[v.name] {
+				refs = append(refs, v.ref())
+			}
+		}
+		for _, e := range extra {
+			if !e.IsConst() {
+				refs = append(refs, e.ref())
+			}
+		}
+		return refs
+	}
+	check := func(asserts []*Term, rawAsserts []string, refs []string) (string, map[string]uint64) {
+		if oneShot {
+			// fresh context per query: lets z3 use its non-incremental bit-vector pipeline
+			r.solver.Send("(reset)")
+			r.solver.Send(fmt.Sprintf("(set-option :timeout %d)", r.solver.timeMs))
+			r.emitted = map[int]bool{}
+			r.declared = map[string]bool{}
+			r.sentPC = 0
+			r.sess = false
+			for _, pc := range r.pc {
+				r.emit(pc)
+				r.solver.Send("(assert " + pc.ref() + ")")
+			}
+			r.sentPC = len(r.pc)
+			if c != nil {
+				r.emit(c)
+			}
+			for _, e := range extra {
+				r.emit(e)
+			}
+		}
+		for _, a := range asserts {
+			r.emit(a)
+		}
+		if !oneShot {
+			r.solver.Send("(push 1)")
+		}
+		if c != nil && !c.IsConst() {
+			r.solver.Send("(assert " + c.ref() + ")")
+		}
+		for _, a := range asserts {
+			r.solver.Send("(assert " + a.ref() + ")")
+		}
+		for _, a := range rawAsserts {
+			r.solver.Send(a)
+		}
+		res := r.solver.CheckSat()
+		var m map[string]uint64
+		if res == "sat" && len(refs) > 0 {
+			vals, ok := r.solver.GetValues(refs)
+			if ok {
+				m = vals
+			} else {
+				res = "unknown"
+			}
+		}
+		if !oneShot {
+			r.solver.Send("(pop 1)")
+		}
+		if res == "dead" {
+			panic(&pathEnd{kind: "solver-timeout", msg: "solver exceeded the hard time limit at " + r.curPos()})
+		}
+		return res, m
+	}
+	if len(r.linRows) == 0 {
+		var refs []string
+		if wantModel {
+			refs = modelRefs()
+		}
+		return check(nil, nil, refs)
+	}
+	// phase A
+	free, pivots := r.ts.linAtoms()
+	var atomTerms []*Term
+	var refsA []string
+	for _, a := range free {
+		t := r.ts.atomBitTerm(a)
+		r.emit(t)
+		atomTerms = append(atomTerms, t)
+		refsA = append(refsA, t.ref())
+	}
+	tA := time.Now()
+	resA, mA := check(nil, nil, refsA)
+	if os.Getenv("GOSYM_SLOWQ") != "" {
+		fmt.Fprintf(os.Stderr, "[phaseA] %.2fs %s free=%d pivots=%d at %s\n", time.Since(tA).Seconds(), resA, len(free), len(pivots), r.curPos())
+	}
+	if resA != "sat" {
+		return resA, nil
+	}
+	// phase B
+	val := map[int32]bool{}
+	for i, a := range free {
+		val[a] = mA[refsA[i]] != 0
+	}
+	lc := r.ts.lin()
+	var raw []string
+	lit := func(t *Term, v bool) string {
+		b := "#b0"
+		if v {
+			b = "#b1"
+		}
+		return "(assert (= " + t.ref() + " " + b + "))"
+	}
+	for i, a := range free {
+		raw = append(raw, lit(atomTerms[i], val[a]))
+	}
+	for _, p := range pivots {
+		row := lc.rows[p]
+		v := row.c
+		for _, a := range row.atoms {
+			if val[a] {
+				v = !v
+			}
+		}
+		t := r.ts.atomBitTerm(p)
+		r.emit(t)
+		raw = append(raw, lit(t, v))
+	}
+	var refs []string
+	if wantModel {
+		refs = modelRefs()
+	}
+	tB := time.Now()
+	resB, mB := check(r.linRows, raw, refs)
+	if os.Getenv("GOSYM_SLOWQ") != "" {
+		fmt.Fprintf(os.Stderr, "[phaseB] %.2fs %s\n", time.Since(tB).Seconds(), resB)
+	}
+	if resB == "sat" {
+		return "sat", mB
+	}
+	// phase C
+	resC, mC := check(r.linRows, nil, refs)
+	return resC, mC
 }
 
 // ----- solver session -----------------------------------------------------------------------
 
+var oneShot bool
+
 func (r *Run) ensureSession() {
+	if oneShot {
+		return
+	}
 	if !r.sess {
 		r.solver.Send("(push 1)")
 		r.sess = true
@@ -215,6 +393,9 @@ func (r *Run) emit(t *Term) {
 }
 
 func (r *Run) flush() {
+	if oneShot {
+		return
+	}
 	r.ensureSession()
 	for r.sentPC < len(r.pc) {
 		c := r.pc[r.sentPC]
@@ -229,12 +410,14 @@ func (r *Run) feasible(c *Term) bool {
 	if c.IsConst() {
 		return c.k != 0
 	}
-	r.flush()
-	r.emit(c)
-	r.solver.Send("(push 1)")
-	r.solver.Send("(assert " + c.ref() + ")")
-	res := r.solver.CheckSat()
-	r.solver.Send("(pop 1)")
+	if r.solver.trace != nil {
+		r.solver.Send("; feasibility at " + r.curPos())
+	}
+	tq := time.Now()
+	res, _ := r.query(c, false, nil)
+	if d := time.Since(tq); d > 2*time.Second && os.Getenv("GOSYM_SLOWQ") != "" {
+		fmt.Fprintf(os.Stderr, "[slowq] %.1fs %s at %s cond=%.300s\n", d.Seconds(), res, r.curPos(), c.String())
+	}
 	if res == "unknown" {
 		r.h.noteOutcomeMsg("solver-unknown", r.curPos())
 	}
@@ -243,43 +426,7 @@ func (r *Run) feasible(c *Term) bool {
 
 // model asks for a model of PC ∧ c; returns nil if unsat/unknown.
 func (r *Run) model(c *Term, extra []*Term) (map[string]uint64, string) {
-	r.flush()
-	if c != nil {
-		r.emit(c)
-	}
-	for _, e := range extra {
-		r.emit(e)
-	}
-	r.solver.Send("(push 1)")
-	if c != nil && !c.IsConst() {
-		r.solver.Send("(assert " + c.ref() + ")")
-	}
-	if c != nil && c.IsConst() && c.k == 0 {
-		r.solver.Send("(pop 1)")
-		return nil, "unsat"
-	}
-	res := r.solver.CheckSat()
-	var m map[string]uint64
-	if res == "sat" {
-		var refs []string
-		for _, v := range r.ts.vars {
-			if r.declared[v.name] {
-				refs = append(refs, v.ref())
-			}
-		}
-		for _, e := range extra {
-			if !e.IsConst() {
-				refs = append(refs, e.ref())
-			}
-		}
-		vals, ok := r.solver.GetValues(refs)
-		if ok {
-			m = vals
-		} else {
-			res = "unknown"
-		}
-	}
-	r.solver.Send("(pop 1)")
+	res, m := r.query(c, true, extra)
 	return m, res
 }
 
@@ -305,7 +452,20 @@ func (r *Run) branch(c *Term) bool {
 		return d.V != 0
 	}
 	take := true
-	if !r.feasible(c) {
+	if structured, eqOK := ts.linBranch(c); structured {
+		// XOR-structured (dis)equality: decided by linear algebra, both sides kept when consistent
+		eqSide := c.op != OpBNot // true when "c true" is the equality side
+		r.h.noteAssumption("branches on XOR-structured equalities (checksums) are not pruned by the solver: consistency is decided by GF(2) elimination and both sides are explored")
+		if !eqOK {
+			take = !eqSide
+		} else {
+			alt := make([]Decision, len(r.log)+1)
+			copy(alt, r.log)
+			alt[len(r.log)] = Decision{'b', 0}
+			r.h.push(alt)
+			r.queued++
+		}
+	} else if !r.feasible(c) {
 		take = false
 	} else if r.feasible(ts.BNot(c)) {
 		alt := make([]Decision, len(r.log)+1)
@@ -346,6 +506,20 @@ func (r *Run) concretize(t *Term, what string) uint64 {
 		return d.V
 	}
 	// enumerate feasible values
+	if oneShot {
+		r.solver.Send("(reset)")
+		r.solver.Send(fmt.Sprintf("(set-option :timeout %d)", r.solver.timeMs))
+		r.emitted = map[int]bool{}
+		r.declared = map[string]bool{}
+		for _, pc := range r.pc {
+			r.emit(pc)
+			r.solver.Send("(assert " + pc.ref() + ")")
+		}
+		for _, row := range r.linRows {
+			r.emit(row)
+			r.solver.Send("(assert " + row.ref() + ")")
+		}
+	}
 	r.flush()
 	r.emit(t)
 	r.solver.Send("(push 1)")
@@ -353,6 +527,9 @@ func (r *Run) concretize(t *Term, what string) uint64 {
 	capHit := false
 	for {
 		res := r.solver.CheckSat()
+		if res == "dead" {
+			panic(&pathEnd{kind: "solver-timeout", msg: "solver exceeded the hard time limit (concretise) at " + r.curPos()})
+		}
 		if res != "sat" {
 			if res == "unknown" && len(vals) == 0 {
 				r.solver.Send("(pop 1)")
@@ -570,6 +747,16 @@ func (h *HarnessRun) worker(id int, solverKind string, timeoutMs int) {
 			return
 		}
 		h.runPath(sv, p)
+		if sv.dead {
+			sv.Close()
+			nsv, err := NewSolver(solverKind, timeoutMs)
+			if err == nil {
+				if sv.trace != nil {
+					nsv.trace = sv.trace
+				}
+				sv = nsv
+			}
+		}
 		h.done()
 		n := atomic.AddInt64(&h.paths, 1)
 		if n >= h.maxPaths || time.Now().After(h.deadline) {
